@@ -431,12 +431,14 @@ package bluemonday
 //@   ensures result == abp.p && wfp(abp.p) && abp.p.initialized
 //@   ensures[C17] forall a string :: old(a in abp.p.globalAttrs) ==> a in abp.p.globalAttrs
 //@   ensures[C17] forall k int :: 0 <= k && k < len(abp.attrNames) ==> abp.attrNames[k] in abp.p.globalAttrs
+//@   ensures[C17] forall a string, j int :: a in abp.p.globalAttrs && 0 <= j && j < len(abp.p.globalAttrs[a]) && !old(a in abp.p.globalAttrs && j < len(abp.p.globalAttrs[a])) ==> abp.p.globalAttrs[a][j].regexp == abp.regexp && (exists k int :: 0 <= k && k < len(abp.attrNames) && a == abp.attrNames[k])
 //@   ensures[C17] forall a string, j int :: old(a in abp.p.globalAttrs && 0 <= j && j < len(abp.p.globalAttrs[a])) ==> j < len(abp.p.globalAttrs[a]) && abp.p.globalAttrs[a][j] == old(abp.p.globalAttrs[a][j])
 //@   loop 0 "for _, attr := range abp.attrNames"
 //@     invariant wfb(abp) && abp.p == old(abp.p) && abp.p.globalAttrs == old(abp.p.globalAttrs) && abp.attrNames == old(abp.attrNames) && abp.regexp == old(abp.regexp)
 //@     invariant forall i int :: 0 <= i && i < len(abp.attrNames) ==> abp.attrNames[i] == pre(abp.attrNames[i])
 //@     invariant[C17] forall a string :: old(a in abp.p.globalAttrs) ==> a in abp.p.globalAttrs
 //@     invariant[C17] forall k int :: 0 <= k && k <= rangeindex ==> abp.attrNames[k] in abp.p.globalAttrs
+//@     invariant[C17] rangeindex < len(abp.attrNames) && (forall a string, j int :: a in abp.p.globalAttrs && 0 <= j && j < len(abp.p.globalAttrs[a]) && !old(a in abp.p.globalAttrs && j < len(abp.p.globalAttrs[a])) ==> abp.p.globalAttrs[a][j].regexp == abp.regexp && (exists k int :: 0 <= k && k <= rangeindex && a == abp.attrNames[k]))
 //@     invariant[C17] forall a string, j int :: old(a in abp.p.globalAttrs && 0 <= j && j < len(abp.p.globalAttrs[a])) ==> j < len(abp.p.globalAttrs[a]) && abp.p.globalAttrs[a][j] == old(abp.p.globalAttrs[a][j])
 //@     invariant forall a string :: a in abp.p.globalAttrs ==> arr(abp.p.globalAttrs[a]) == nil || allocated(arr(abp.p.globalAttrs[a]))
 
@@ -448,7 +450,11 @@ package bluemonday
 //@   ensures result == abp.p && wfp(abp.p) && abp.p.initialized
 //@   ensures[C17] forall e string :: old(e in abp.p.elsAndAttrs) ==> e in abp.p.elsAndAttrs
 //@   ensures[C17] forall e string, a string, j int :: old(e in abp.p.elsAndAttrs && a in abp.p.elsAndAttrs[e] && 0 <= j && j < len(abp.p.elsAndAttrs[e][a])) ==> (a in abp.p.elsAndAttrs[e] && j < len(abp.p.elsAndAttrs[e][a]) && abp.p.elsAndAttrs[e][a][j] == old(abp.p.elsAndAttrs[e][a][j]))
+//@   ensures[C17] forall e string, a string, j int :: e in abp.p.elsAndAttrs && a in abp.p.elsAndAttrs[e] && 0 <= j && j < len(abp.p.elsAndAttrs[e][a]) && !old(e in abp.p.elsAndAttrs && a in abp.p.elsAndAttrs[e] && j < len(abp.p.elsAndAttrs[e][a])) ==> abp.p.elsAndAttrs[e][a][j].regexp == abp.regexp && (exists k int :: 0 <= k && k < len(abp.attrNames) && a == abp.attrNames[k])
+//@   before "if abp.allowEmpty {"
+//@     lemma[C17] forall e string, a string, j int :: e in abp.p.elsAndAttrs && a in abp.p.elsAndAttrs[e] && 0 <= j && j < len(abp.p.elsAndAttrs[e][a]) && !old(e in abp.p.elsAndAttrs && a in abp.p.elsAndAttrs[e] && j < len(abp.p.elsAndAttrs[e][a])) ==> abp.p.elsAndAttrs[e][a][j].regexp == abp.regexp && (exists k int :: 0 <= k && k < len(abp.attrNames) && a == abp.attrNames[k])
 //@   loop 0 "for _, element := range elements"
+//@     invariant[C17] rangeindex < len(elements) && (forall e string, a string, j int :: e in abp.p.elsAndAttrs && a in abp.p.elsAndAttrs[e] && 0 <= j && j < len(abp.p.elsAndAttrs[e][a]) && !old(e in abp.p.elsAndAttrs && a in abp.p.elsAndAttrs[e] && j < len(abp.p.elsAndAttrs[e][a])) ==> abp.p.elsAndAttrs[e][a][j].regexp == abp.regexp && (exists k int :: 0 <= k && k < len(abp.attrNames) && a == abp.attrNames[k]))
 //@     invariant wfb(abp) && abp.p == old(abp.p) && abp.p.elsAndAttrs == old(abp.p.elsAndAttrs) && abp.p.setOfElementsAllowedWithoutAttrs == old(abp.p.setOfElementsAllowedWithoutAttrs) && abp.attrNames == old(abp.attrNames) && abp.regexp == old(abp.regexp) && abp.allowEmpty == old(abp.allowEmpty)
 //@     invariant forall i int :: 0 <= i && i < len(elements) ==> elements[i] == pre(elements[i])
 //@     invariant forall e string :: e in abp.p.elsAndAttrs ==> (old(e in abp.p.elsAndAttrs) && abp.p.elsAndAttrs[e] == old(abp.p.elsAndAttrs[e])) || fresh(abp.p.elsAndAttrs[e])
@@ -456,6 +462,7 @@ package bluemonday
 //@     invariant[C17] forall e string, a string, j int :: old(e in abp.p.elsAndAttrs && a in abp.p.elsAndAttrs[e] && 0 <= j && j < len(abp.p.elsAndAttrs[e][a])) ==> (a in abp.p.elsAndAttrs[e] && j < len(abp.p.elsAndAttrs[e][a]) && abp.p.elsAndAttrs[e][a][j] == old(abp.p.elsAndAttrs[e][a][j]))
 //@     invariant forall e string, a string :: e in abp.p.elsAndAttrs && a in abp.p.elsAndAttrs[e] ==> arr(abp.p.elsAndAttrs[e][a]) == nil || allocated(arr(abp.p.elsAndAttrs[e][a]))
 //@   loop 1 "for _, attr := range abp.attrNames"
+//@     invariant[C17] (forall e string, a string, j int :: e in abp.p.elsAndAttrs && a in abp.p.elsAndAttrs[e] && 0 <= j && j < len(abp.p.elsAndAttrs[e][a]) && !old(e in abp.p.elsAndAttrs && a in abp.p.elsAndAttrs[e] && j < len(abp.p.elsAndAttrs[e][a])) ==> abp.p.elsAndAttrs[e][a][j].regexp == abp.regexp && (exists k int :: 0 <= k && k < len(abp.attrNames) && a == abp.attrNames[k]))
 //@     invariant wfb(abp) && abp.p == old(abp.p) && abp.p.elsAndAttrs == old(abp.p.elsAndAttrs) && abp.p.setOfElementsAllowedWithoutAttrs == old(abp.p.setOfElementsAllowedWithoutAttrs) && abp.attrNames == old(abp.attrNames) && abp.regexp == old(abp.regexp) && abp.allowEmpty == old(abp.allowEmpty)
 //@     invariant forall i int :: 0 <= i && i < len(elements) ==> elements[i] == pre(elements[i])
 //@     invariant forall e string :: e in abp.p.elsAndAttrs ==> (old(e in abp.p.elsAndAttrs) && abp.p.elsAndAttrs[e] == old(abp.p.elsAndAttrs[e])) || fresh(abp.p.elsAndAttrs[e])
@@ -471,7 +478,11 @@ package bluemonday
 //@   ensures result == abp.p && wfp(abp.p) && abp.p.initialized
 //@   ensures[C17] forall e *regexp.Regexp :: old(e in abp.p.elsMatchingAndAttrs) ==> e in abp.p.elsMatchingAndAttrs
 //@   ensures[C17] forall e *regexp.Regexp, a string, j int :: old(e in abp.p.elsMatchingAndAttrs && a in abp.p.elsMatchingAndAttrs[e] && 0 <= j && j < len(abp.p.elsMatchingAndAttrs[e][a])) ==> (a in abp.p.elsMatchingAndAttrs[e] && j < len(abp.p.elsMatchingAndAttrs[e][a]) && abp.p.elsMatchingAndAttrs[e][a][j] == old(abp.p.elsMatchingAndAttrs[e][a][j]))
+//@   ensures[C17] forall e *regexp.Regexp, a string, j int :: e in abp.p.elsMatchingAndAttrs && a in abp.p.elsMatchingAndAttrs[e] && 0 <= j && j < len(abp.p.elsMatchingAndAttrs[e][a]) && !old(e in abp.p.elsMatchingAndAttrs && a in abp.p.elsMatchingAndAttrs[e] && j < len(abp.p.elsMatchingAndAttrs[e][a])) ==> abp.p.elsMatchingAndAttrs[e][a][j].regexp == abp.regexp && (exists k int :: 0 <= k && k < len(abp.attrNames) && a == abp.attrNames[k])
+//@   before "if abp.allowEmpty {"
+//@     lemma[C17] forall e *regexp.Regexp, a string, j int :: e in abp.p.elsMatchingAndAttrs && a in abp.p.elsMatchingAndAttrs[e] && 0 <= j && j < len(abp.p.elsMatchingAndAttrs[e][a]) && !old(e in abp.p.elsMatchingAndAttrs && a in abp.p.elsMatchingAndAttrs[e] && j < len(abp.p.elsMatchingAndAttrs[e][a])) ==> abp.p.elsMatchingAndAttrs[e][a][j].regexp == abp.regexp && (exists k int :: 0 <= k && k < len(abp.attrNames) && a == abp.attrNames[k])
 //@   loop 0 "for _, attr := range abp.attrNames"
+//@     invariant[C17] forall e *regexp.Regexp, a string, j int :: e in abp.p.elsMatchingAndAttrs && a in abp.p.elsMatchingAndAttrs[e] && 0 <= j && j < len(abp.p.elsMatchingAndAttrs[e][a]) && !old(e in abp.p.elsMatchingAndAttrs && a in abp.p.elsMatchingAndAttrs[e] && j < len(abp.p.elsMatchingAndAttrs[e][a])) ==> abp.p.elsMatchingAndAttrs[e][a][j].regexp == abp.regexp && (exists k int :: 0 <= k && k < len(abp.attrNames) && a == abp.attrNames[k])
 //@     invariant wfb(abp) && abp.p == old(abp.p) && abp.p.elsMatchingAndAttrs == old(abp.p.elsMatchingAndAttrs) && abp.attrNames == old(abp.attrNames) && abp.regexp == old(abp.regexp) && abp.allowEmpty == old(abp.allowEmpty)
 //@     invariant forall e *regexp.Regexp :: e in abp.p.elsMatchingAndAttrs ==> (old(e in abp.p.elsMatchingAndAttrs) && abp.p.elsMatchingAndAttrs[e] == old(abp.p.elsMatchingAndAttrs[e])) || fresh(abp.p.elsMatchingAndAttrs[e])
 //@     invariant[C17] forall e *regexp.Regexp :: old(e in abp.p.elsMatchingAndAttrs) ==> e in abp.p.elsMatchingAndAttrs
